@@ -138,7 +138,7 @@ def _run_cat(job):
     return {"case": c, "applied": True, "wb": wb, "fmt": fmt, "res": res, "trace": trace, "idents": idents}
 
 
-_CHOICE_MUTS = {"choice_noname", "dup_choice", "dup_choice_labelless", "dup_choice_first_labelless", "selm_choice_space"}
+_CHOICE_MUTS = {"choice_noname", "dup_choice", "dup_choice_labelless", "dup_choice_first_labelless", "selm_choice_space", "selm_choice_space_list_used_before"}
 
 
 def cat_sheet(c):
